@@ -48,7 +48,7 @@ def main():
     known = [k for k in load_known() if k['property'] == prop]
     kn = {k['class_key']: k for k in known if k.get('status', 'known') == 'known'}
     alt = os.path.realpath(engine.TREE) != '/repo'     # a scratch tree: never touch the committed evidence
-    rdir = os.path.join(HERE, 'replays-alt' if alt else 'replays', prop)
+    rdir = os.path.join(HERE, *(['replays-alt', os.path.basename(os.path.realpath(engine.TREE))] if alt else ['replays']), prop)
     if os.path.isdir(rdir):
         shutil.rmtree(rdir)
     new = []
